@@ -539,7 +539,7 @@ def _c08(tier, seed):
 
 PROPS["C08"] = {
     "level": "model_checking",
-    "files": ["src/raft/filestore/core.rs", "src/raft/filestore/raftapply.rs", "src/raft/filestore/raftsnapshot.rs", "src/raft/filestore/raftdata.rs", "src/config/core.rs", "src/namespace/mod.rs", "src/raft/db/table.rs"],
+    "files": ["src/raft/filestore/core.rs", "src/raft/filestore/raftapply.rs", "src/raft/filestore/raftsnapshot.rs", "src/raft/filestore/raftdata.rs", "src/raft/filestore/raftlog/mod.rs", "src/config/core.rs", "src/namespace/mod.rs", "src/raft/db/table.rs"],
     "smt": _c08,
     "trusted_base": PROPS["C09"]["trusted_base"],
     "assumptions": [
@@ -551,6 +551,10 @@ PROPS["C08"] = {
         "leader stream of 3 chunks of 2 symbolic bytes; schedules: in order, one chunk resent, behind an interrupted transfer of 3 / 6 / 9 bytes",
         "counterexamples about the state reaching the state machine are replayed on a real node (real store actors + state-machine components, harness/hist_store.rs) through "
         "RaftStorage::{create_snapshot, finalize_snapshot_installation}",
+        "s08_8_installation_empties_the_log: FileStore::finalize_snapshot_installation from source with delete_through = None, its log-manager messages dispatched into the real "
+        "Handler<RaftLogManagerRequest> (split_off, save_new_snapshot_pointer, write, switch_new_log from source) over three catalogue shapes and every snapshot index 1..=20: one open file that starts at the "
+        "snapshot index is left, it is the append target and got the pointer record, saved catalogue == memory; file actors are recording sinks that acknowledge a write; "
+        "s08_2: for delete_through = None the contract of async-raft is 'all entries of the log are to be deleted' (storage.rs of async-raft-ext 0.6.3)",
         "s08_7_installation_interrupted: the write-order obligation of C04 (s04_6) read for C08 - behind every prefix of the installation's messages the log is only cut / re-based on the snapshot "
         "pointer once the snapshot catalogue names the snapshot (a follower killed inside an installation must not restart with a log that claims the snapshot's index and nothing behind it)",
         "s08_4 / s08_5 / s08_6: the content of the snapshot - the config component's, the namespace registry's and the user table's records written by the leader's build_snapshot and loaded by a fresh "
